@@ -21,6 +21,7 @@ family `tsolve-unc-complex-dtype-damped-rigid-body-mode-damping-ignored`.  Prove
                                      recurrence of `get_su_coef` at unit mass on `f/m`;
 * `complex_unc_rb_exact_partial`     the full statement under the hypothesis `b = 0` (the missing part is exactly
                                      the damped rigid-body row);
+* `complex_recovery_real_part`, `complex_dtype_real_system_response_is_real`   elastic rows (finding F62, repaired);
 * `complex_unc_damped_rb_counterexample`   `m = b = 1`, `h = 1`, held force `1` from rest: the code's sample
                                      `(d, v, a) = (1/2, 1, 1)` violates `m a + b v = f` (`2 ≠ 1`) and is not the end
                                      state of the solution (`v(1) = 1 − e⁻¹ ≠ 1`): the hypothesis is necessary.
@@ -116,16 +117,16 @@ theorem complex_unc_damped_rb_counterexample :
     linarith
 
 
-/-! ### the elastic rows after `delconj` (second finding of this path)
+/-! ### the elastic rows: no conjugate deletion for a complex `systype` (finding F62, repaired in 4a72d85)
 
 For a complex `systype` the elastic rows are recovered as `d = ur_d @ y` (`recoverCplx`), for a real one as
-`rur_d @ ry − iur_d @ iy` (`recoverReal`).  When the coefficients have a complex dtype but zero imaginary
-parts and `la.eig` returns exactly conjugate pairs, `delconj` keeps one eigenvector of each pair (doubled) —
-the set-up the REAL recovery is proved for (`delconj_recovers`, `coupled_run_exact_real`) — but the complex
-recovery is applied.  Its real part is the real recovery (`complex_recovery_real_part`: the real part of the
-returned history is right), its imaginary part is not zero in general
-(`complex_recovery_spurious_imag_counterexample`): family
-`tsolve-unc-complex-dtype-conjugate-pairs-deleted-spurious-imaginary-part`. -/
+`rur_d @ ry − iur_d @ iy` (`recoverReal`) from the kept half of the conjugate pairs.  Before the repair
+`delconj` could also delete conjugate pairs of a complex-dtype system with zero imaginary parts (when `la.eig`
+returned exactly conjugate eigenvalues); the complex recovery of the kept, doubled eigenvectors then has the right
+real part (`complex_recovery_real_part`) and a spurious imaginary part.  The repaired code deletes conjugates only
+when `systype is float`, so a complex-dtype system always runs the full modal recurrence, to which
+`coupled_run_exact` applies; and the exact solution of a system with real coefficients, real force and real initial
+state is real-valued (`complex_dtype_real_system_response_is_real`): no imaginary part may come back. -/
 
 /-- the real part of the complex recovery is the real recovery -/
 theorem complex_recovery_real_part {n N : ℕ} (U : Fin n → Fin N → ℂ) (y : Fin N → ℂ) (j : Fin n) :
@@ -133,14 +134,42 @@ theorem complex_recovery_real_part {n N : ℕ} (U : Fin n → Fin N → ℂ) (y 
   simp only [recoverCplx, matVec, recoverReal, dotFin_eq, dotFin_eq_real, CplxOps.re, CplxOps.im,
     Complex.re_sum, Complex.mul_re, Finset.sum_sub_distrib]
 
-/-- one kept eigenvector `u = 2i` (already doubled), modal state `y = 1`: the real recovery gives the real
-displacement `0`, the complex recovery returns `2i` -/
-theorem complex_recovery_spurious_imag_counterexample :
-    recoverReal (R := ℝ) (fun (_ : Fin 1) (_ : Fin 1) => (2 * Complex.I : ℂ)) (fun _ => 1) 0 = 0 ∧
+/-- a system with real coefficients handed over in a complex dtype: THE complex solution (the one the
+complex path computes, `coupled_run_exact`) is the real solution with zero imaginary part -/
+theorem complex_dtype_real_system_response_is_real {n : ℕ} (M Mi B K : Matrix (Fin n) (Fin n) ℝ)
+    (hMi : Mi * M = 1) (f0 fs d0 v0 : Fin n → ℝ) (dR vR : ℝ → Fin n → ℝ)
+    (hR : IsSol2R M B K f0 fs d0 v0 dR vR) (d v : ℝ → Fin n → ℂ)
+    (hC : IsSol2 (cMat M) (cMat B) (cMat K) (cVec f0) (cVec fs) (cVec d0) (cVec v0) d v) :
+    (∀ t j, (d t j).im = 0 ∧ (d t j).re = dR t j) ∧ (∀ t j, (v t j).im = 0 ∧ (v t j).re = vR t j) := by
+  have hcm := cMat_mul_eq_one hMi
+  have h1 := hC.toState hcm
+  have h2 := hR.complexify.toState hcm
+  have he := h1.unique h2
+  constructor
+  · intro t j
+    have := congrFun (congrFun he t) (Sum.inr j)
+    simp only [Sum.elim_inr] at this
+    rw [this]
+    simp [cVec]
+  · intro t j
+    have := congrFun (congrFun he t) (Sum.inl j)
+    simp only [Sum.elim_inl] at this
+    rw [this]
+    simp [cVec]
+
+/-- the set-up that the repair removed: one kept eigenvector `u = 2i` (already doubled), modal state `y = 1`:
+the real recovery gives the real displacement `0`, the complex recovery would return `2i` -/
+example : recoverReal (R := ℝ) (fun (_ : Fin 1) (_ : Fin 1) => (2 * Complex.I : ℂ)) (fun _ => 1) 0 = 0 ∧
     (recoverCplx (fun (_ : Fin 1) (_ : Fin 1) => (2 * Complex.I : ℂ)) (fun _ => 1) 0).im = 2 := by
   constructor
   · simp [recoverReal, dotFin_eq_real, CplxOps.re, CplxOps.im]
   · simp [recoverCplx, matVec, dotFin_eq]
+
+/-- non-vacuity of `complex_dtype_real_system_response_is_real`: the unit mass at rest -/
+example : IsSol2R (1 : Matrix (Fin 1) (Fin 1) ℝ) 0 0 0 0 0 0 (fun _ => 0) (fun _ => 0) := by
+  refine ⟨fun t => hasDerivAt_const t (0 : Fin 1 → ℝ), fun t => ⟨0, hasDerivAt_const t (0 : Fin 1 → ℝ), ?_⟩,
+    rfl, rfl⟩
+  simp
 
 /-! ### non-vacuity of the partial theorem: an undamped row, `m = 2`, `h = 1`, force `2 → 6`, order 1 -/
 
